@@ -1,3 +1,196 @@
 import BB.Driver.Util
-/-! Placeholder driver for C15 (replaced when the model is built). -/
-def main : IO Unit := BB.Driver.loop (fun (s : Unit) _ => (s, "unimplemented")) ()
+import BB.Model.Mux
+/-!
+Line-protocol driver of the C15 models (stateless: every line is a whole case).
+
+    mux <n> <term> <chunk>... ; <act>...      n consumers, term = eof | e<k>, chunks in hex ("-" = empty)
+                                              act = rb<i> | re<i> | c<i>   (readBegin / readEnd / close)
+       -> ok closes=.. pos=.. pending=.. panic=.. | <i>:<i|w|r|x>:<res>,<res>.. ...   or   stuck@<k>
+    neg <act>...                              act = cl<i> | co<i>.<0|1>.<maxChunk>
+       -> ok remaining=.. made=<none | v.chunk.consumers,..> panic=..                   or   stuck@<k>
+    prog <repaired> <content hex> ; <expr, postfix> ; <method>
+       expr:   b.err<k> b.bytes b.rat b.rd.<q> b.ch.<q>  (q = g | c | e<k>)
+               cs.<l|r>.<d|r>  cc.<l|r>  wt.<0|k>  eh
+       method: size | iw | ra <off> <len> | proto <max> | bs <max> | cr <off> <all|close> | rdr <all|close> | discard
+       -> res=<ok:hex | unsound:hex | err:k | size:n | panic> eof=.. cerr=.. wterm=.. waited=..   or   buildpanic
+-/
+open BB.Driver BB.Mux
+
+def showRes : Res → String
+  | .chunk d => "c" ++ bytesHex d
+  | .eof => "eof"
+  | .err k => s!"e{k}"
+
+def parseTerm (w : String) : Option Res :=
+  if w == "eof" then some .eof
+  else match w.toList with
+    | 'e' :: rest => (String.ofList rest).toNat?.map Res.err
+    | _ => none
+
+def parseAct (w : String) : Option Act :=
+  match w.toList with
+  | 'r' :: 'b' :: rest => (String.ofList rest).toNat?.map Act.readBegin
+  | 'r' :: 'e' :: rest => (String.ofList rest).toNat?.map Act.readEnd
+  | 'c' :: rest => (String.ofList rest).toNat?.map Act.close
+  | _ => none
+
+def showCon (i : Nat) (c : Con) : String :=
+  let st := match c.st with
+    | .idle => "i" | .waiting => "w" | .ready _ => "r" | .closed => "x"
+  let got := if c.got.isEmpty then "-" else ",".intercalate (c.got.map showRes)
+  s!"{i}:{st}:{got}"
+
+def runMux (src : Nat → Res) : St → List Act → Nat → St ⊕ Nat
+  | s, [], _ => .inl s
+  | s, a :: as, k => match step src s a with
+    | some s' => runMux src s' as (k + 1)
+    | none => .inr k
+
+def splitOn (ws : List String) (sep : String) : List (List String) :=
+  let rec go : List String → List String → List (List String) → List (List String)
+    | [], cur, acc => (cur.reverse :: acc).reverse
+    | w :: rest, cur, acc => if w == sep then go rest [] (cur.reverse :: acc) else go rest (w :: cur) acc
+  go ws [] []
+
+def zipIdx {α : Type} (l : List α) : List (Nat × α) := (List.range l.length).zip l
+
+def doMux (args : List String) : String :=
+  match splitOn args ";" with
+  | [n :: term :: chunks, acts] =>
+    match nat? n, parseTerm term, chunks.mapM hexBytes?, acts.mapM parseAct with
+    | some n, some term, some chunks, some acts =>
+      if n = 0 then "bad-op" else
+      match runMux (scriptSrc chunks term) (St.init (n - 1)) acts 0 with
+      | .inr k => s!"stuck@{k}"
+      | .inl s =>
+        let cons := " ".intercalate ((zipIdx s.cons).map fun p => showCon p.1 p.2)
+        s!"ok closes={s.closes} pos={s.pos} pending={s.pending} panic={if s.panicked then 1 else 0} | {cons}"
+    | _, _, _, _ => "bad-op"
+  | _ => "bad-op"
+
+def parseNAct (w : String) : Option NAct :=
+  match w.toList with
+  | 'c' :: 'l' :: rest => (String.ofList rest).toNat?.map NAct.clone
+  | 'c' :: 'o' :: rest =>
+    match (String.ofList rest).splitOn "." with
+    | [i, nv, mc] =>
+      match i.toNat?, nv.toNat?, mc.toNat? with
+      | some i, some nv, some mc => if nv ≤ 1 then some (.consume i (nv == 1) mc) else none
+      | _, _, _ => none
+    | _ => none
+  | _ => none
+
+def runNeg : Neg → List NAct → Nat → Neg ⊕ Nat
+  | s, [], _ => .inl s
+  | s, a :: as, k => match s.step a with
+    | some s' => runNeg s' as (k + 1)
+    | none => .inr k
+
+def doNeg (args : List String) : String :=
+  match args.mapM parseNAct with
+  | some acts =>
+    match runNeg {} acts 0 with
+    | .inr k => s!"stuck@{k}"
+    | .inl s =>
+      let made := if s.made.isEmpty then "none" else
+        ",".intercalate (s.made.map fun m => s!"{if m.validated then 1 else 0}.{m.chunk}.{m.consumers}")
+      s!"ok remaining={s.remaining} made={made} panic={if s.panicked then 1 else 0}"
+  | none => "bad-op"
+
+def parseQ (w : String) : Option Quality :=
+  if w == "g" then some .good else if w == "c" then some .corrupt else
+  match w.toList with
+  | 'e' :: rest => (String.ofList rest).toNat?.map Quality.ioerr
+  | _ => none
+
+def parseSide (w : String) : Option Bool :=
+  if w == "l" then some true else if w == "r" then some false else none
+
+/-- one postfix token applied to the stack of expressions -/
+def pushTok (stack : List BufExpr) (w : String) : Option (List BufExpr) :=
+  match w.splitOn "." with
+  | ["b", k] =>
+    if k == "bytes" then some (.base .bytes :: stack)
+    else if k == "rat" then some (.base .readerAt :: stack)
+    else match k.toList with
+      | 'e' :: 'r' :: 'r' :: rest => (String.ofList rest).toNat?.map fun n => .base (.err n) :: stack
+      | _ => none
+  | ["b", "rd", q] => (parseQ q).map fun q => .base (.reader q) :: stack
+  | ["b", "ch", q] => (parseQ q).map fun q => .base (.chunks q) :: stack
+  | ["cs", side, sib] =>
+    match stack, parseSide side with
+    | e :: rest, some sd =>
+      if sib == "d" then some (.cloneStream e sd .discard :: rest)
+      else if sib == "r" then some (.cloneStream e sd .read :: rest) else none
+    | _, _ => none
+  | ["cc", side] =>
+    match stack, parseSide side with
+    | e :: rest, some sd => some (.cloneCopy e sd :: rest)
+    | _, _ => none
+  | ["wt", r] =>
+    match stack, r.toNat? with
+    | e :: rest, some r => some (.withTask e (if r = 0 then none else some r) :: rest)
+    | _, _ => none
+  | ["eh"] =>
+    match stack with
+    | e :: rest => some (.withErrorHandler e :: rest)
+    | _ => none
+  | _ => none
+
+def parseExpr (ws : List String) : Option BufExpr :=
+  match ws.foldlM pushTok [] with
+  | some [e] => some e
+  | _ => none
+
+def parseAll (w : String) : Option Bool :=
+  if w == "all" then some true else if w == "close" then some false else none
+
+def parseMethod : List String → Option Method
+  | ["size"] => some .getSizeBytes
+  | ["iw"] => some .intoWriter
+  | ["ra", off, len] => match nat? off, nat? len with
+    | some off, some len => some (.readAt off len)
+    | _, _ => none
+  | ["proto", max] => (nat? max).map Method.toProto
+  | ["bs", max] => (nat? max).map Method.toByteSlice
+  | ["cr", off, a] => match nat? off, parseAll a with
+    | some off, some a => some (.toChunkReader off a)
+    | _, _ => none
+  | ["rdr", a] => (parseAll a).map Method.toReader
+  | ["discard"] => some .discard
+  | _ => none
+
+def showIds (l : List Nat) : String :=
+  let l := l.eraseDups
+  if l.isEmpty then "-" else ",".intercalate (l.map toString)
+
+def showOut (m : Method) (o : MOut) : String :=
+  let res := match o.res, m with
+    | .panic, _ => "panic"
+    | .err k, _ => s!"err:{k}"
+    | .ok [n] _, .getSizeBytes => s!"size:{n}"
+    | .ok d true, _ => "ok:" ++ bytesHex d
+    | .ok d false, _ => "unsound:" ++ bytesHex d
+  let cerr := match o.closeErr with | some k => toString k | none => "-"
+  s!"res={res} eof={if o.eof then 1 else 0} cerr={cerr} wterm={showIds o.wTerm} waited={showIds o.waited}"
+
+def doProg (args : List String) : String :=
+  match splitOn args ";" with
+  | [[rep, d], expr, meth] =>
+    match nat? rep, hexBytes? d, parseExpr expr, parseMethod meth with
+    | some rep, some d, some e, some m =>
+      if rep > 1 then "bad-op" else
+      match exec { d := d, repaired := rep == 1 } e m with
+      | some o => showOut m o
+      | none => "buildpanic"
+    | _, _, _, _ => "bad-op"
+  | _ => "bad-op"
+
+def step15 (s : Unit) (line : String) : Unit × String :=
+  match words line with
+  | "mux" :: args => (s, doMux args)
+  | "neg" :: args => (s, doNeg args)
+  | "prog" :: args => (s, doProg args)
+  | _ => (s, "bad-op")
+
+def main : IO Unit := loop step15 ()
